@@ -1081,7 +1081,7 @@ def stage_config(ck, exe, tab, hist):
 
 
 # ------------------------------------------------------------------ entry
-N_THEOREMS = 43
+N_THEOREMS = 46
 
 
 def run(ck):
